@@ -11,6 +11,7 @@ import shutil
 import subprocess
 from concurrent.futures import ThreadPoolExecutor
 
+import common
 from common import (CORPUS, HARNESS, REPO, ToolError, Stage, cargo_build, log, run_tlc, sh)
 
 GEN_DIR = os.path.join(HARNESS, "genlab_run", "src", "gen")
@@ -158,6 +159,125 @@ def random_definition(rng, idx):
         calls.append(C(rng.choice(["default", "default", "default", "simple", "basic", "append", "append_rev"])))
     frags = rng.choice([[], ["clone"], ["serde"], ["clone", "serde"], ["clone", "serde"]])
     return {"name": "random%d" % idx, "fragments": frags, "calls": calls, "resolver": "host"}
+
+
+def refill_definition(rng, idx):
+    """Holes refilled by the gap-fitting strategy: a first variant of word-sized data, a small datum
+    that is freed with them and one or two small survivors (so that the hole ends on a boundary that
+    is misaligned for the data put into it), then a step that frees the words and adds several
+    data, among them owned ones whose size is not a power of two."""
+    calls = []
+    words = []
+    n = 0
+    for _ in range(rng.randrange(2, 5)):
+        n += 1
+        calls.append(A("w%d" % n, rng.choice(["P8", "P8", "P8", "P8", "P4", "P16"])))
+        words.append("w%d" % n)
+    if rng.random() < 0.8:
+        n += 1
+        calls.append(A("w%d" % n, rng.choice(["P4", "P4", "P2"])))
+        words.append("w%d" % n)
+    for _ in range(rng.randrange(1, 3)):
+        n += 1
+        calls.append(A("s%d" % n, rng.choice(["P4", "P4", "P2", "P1", "Odd3"])))
+    calls.append(C(rng.choice(["default", "append", "default"])))
+    for name in words:
+        if rng.random() < 0.9:
+            calls.append(R(name))
+    for _ in range(rng.randrange(3, 6)):
+        n += 1
+        calls.append(A("r%d" % n, rng.choice(["TrackedOdd", "TrackedOdd", "P8", "P8", "Tracked", "P4", "Odd12"])))
+    calls.append(C("default"))
+    if rng.random() < 0.5:
+        calls.append(R("r%d" % n))
+        calls.append(A("x%d" % (n + 1), rng.choice(["Tracked", "P8", "TrackedOdd"])))
+        calls.append(A("x%d" % (n + 2), rng.choice(["P2", "TrackedOdd", "P4"])))
+        calls.append(C("default"))
+    frags = rng.choice([[], ["clone"], ["clone", "serde"]])
+    return {"name": "refill%d" % idx, "fragments": frags, "calls": calls, "resolver": "host"}
+
+
+# shapes of builder histories that the lab palette can express: (size, align) -> (owned key, Copy key)
+SHAPE_KEYS = {(0, 1): ("ZstDrop", "Zst"), (0, 8): (None, "ZstA8"), (1, 1): (None, "P1"), (2, 2): (None, "P2"),
+              (4, 4): (None, "P4"), (8, 8): (None, "P8"), (16, 16): (None, "P16"), (3, 1): (None, "Odd3"),
+              (12, 4): ("TrackedOdd", "Odd12"), (24, 8): (None, "Odd24"), (16, 8): ("Tracked", None),
+              (48, 8): ("TrackedBig", None), (32, 8): ("Str", None)}
+
+
+def definition_from_history(h, idx):
+    """A builder history (tools/builder_pipe.py) as a lab definition, or None when it uses a shape the
+    palette lacks or a request the builder rejects."""
+    calls, ids, live, pending, n = [], {}, set(), set(), 0
+    for c in h.get("calls", []):
+        if c["op"] == "add":
+            ks = SHAPE_KEYS.get((c["size"], c["align"]))
+            if not ks:
+                return None
+            un = bool(c.get("uninit"))
+            key = ks[1] if (un or not ks[0]) else ks[0]
+            if key is None or c["name"] in {ids[i] for i in live | pending}:
+                return None
+            n += 1
+            ids[n] = c["name"]
+            pending.add(n)
+            calls.append(A(c["name"], key, un and key in COPY_KEYS))
+        elif c["op"] == "remove":
+            i = c["id"]
+            if i not in live | pending:
+                return None
+            (live if i in live else pending).discard(i)
+            calls.append(R(ids[i]))
+        elif c["op"] == "close":
+            live |= pending
+            pending = set()
+            calls.append(C(c["strategy"]))
+    if pending or not calls or calls[-1]["op"] != "close":
+        return None
+    return {"name": "from_builder%d" % idx, "fragments": ["clone"], "calls": calls, "resolver": "host",
+            "source": "builder history hid %s" % h.get("hid")}
+
+
+def feedback_definitions(seed, limit=8):
+    """Builder histories on which the BUILDER pipeline (quick tier) reported a layout tag, as lab
+    definitions: a layout defect is then also exercised through the generated code (C03-C07).  None on a
+    tree whose layouts are right."""
+    import builder_pipe
+    import shutil
+    br = builder_pipe.pipeline("quick", seed)
+    layout = ("C01:", "C02:", "C03:")
+    out, seen = [], set()
+
+    def take(bad):
+        for b in bad:
+            if not b["tag"].startswith(layout) or b["hid"] in seen or not b.get("history") or len(out) >= limit:
+                continue
+            seen.add(b["hid"])
+            d = definition_from_history(b["history"], len(out) + 1)
+            if d:
+                d["why"] = b["tag"]
+                out.append(d)
+
+    take(br["bad"])
+    if len(out) < limit and any(t.startswith(layout) for t in br["tags"]):
+        # the reported histories use shapes the palette lacks: look for the same kind of trouble among
+        # histories made of palette shapes only (real builder + BuilderTrace, as in the builder pipeline)
+        rng = random.Random(seed + 7)
+        hs = []
+        while len(hs) < 4000:
+            h = builder_pipe.random_history(rng, 100000 + len(hs), "palette")
+            h["converts"] = []
+            hs.append(h)
+        work = os.path.join(common.WORK, "feedback-%d" % os.getpid())
+        os.makedirs(work, exist_ok=True)
+        try:
+            bin_dir = cargo_build(["builder_driver"], release=True)
+            shards, _ = builder_pipe.run_histories(hs, work, bin_dir, tag="fb")
+            bad, _ = builder_pipe.validate_traces(shards, work)
+        finally:
+            shutil.rmtree(work, ignore_errors=True)
+        byhid = {h["hid"]: h for h in hs}
+        take([dict(b, history=byhid.get(b["hid"])) for b in sorted(bad, key=lambda b: (len(byhid[b["hid"]]["calls"]), b["hid"]))])
+    return out
 
 
 # ----------------------------------------------------------------------------- scripts
@@ -592,6 +712,13 @@ def pipeline(tier, seed):
         nrandom = 10 if tier == "quick" else 120
         for i in range(nrandom):
             defs.append(random_definition(rng, i))
+        nrefill = 6 if tier == "quick" else 60
+        for i in range(nrefill):
+            defs.append(refill_definition(rng, i))
+        fb = feedback_definitions(seed)
+        if fb:
+            log("lab: %d definitions taken from builder histories with layout tags" % len(fb))
+        defs += fb
         log("lab: S2 TLC replay generation (MCRecordReplay)")
         mgroups, res["replay_gen"] = model_behaviours(tier, rng)
         model_of = {}
@@ -617,7 +744,7 @@ def pipeline(tier, seed):
                 res["compile_matrix"]["failures"].append(
                     {"did": did, "name": defs[did - 1]["name"], "selection": ["", "clone", "serde", "clone+serde"][int(sel)],
                      "definition": defs[did - 1], "error": first.group(1)[:600] if first else ""})
-        res["definitions"] = {"total": len(defs), "core": len(core_definitions()), "random": nrandom,
+        res["definitions"] = {"total": len(defs), "core": len(core_definitions()), "random": nrandom, "refill": nrefill, "from_builder_histories_with_layout_tags": len(fb),
                               "generated": len(built)}
         res["gen_failures"] = [{"did": r["did"], "name": defs[r["did"] - 1]["name"], "status": r["status"],
                                 "definition": defs[r["did"] - 1]} for r in report if r["status"] != "ok"]
